@@ -9,6 +9,7 @@ objectives; the run-level theorems quantify over every line-search type, every i
 import SharkVerif.Props.C10
 import SharkVerif.Lemmas.LineSearches
 import SharkVerif.Model.TrustRegion
+import SharkVerif.Lemmas.LBFGS
 namespace SharkVerif.C10
 open SharkVerif.Opt SharkVerif.BFGS
 
@@ -640,5 +641,149 @@ theorem trn_cg_inside (sqrt : Rat → Rat) (H : Mat Rat) (g : Vec Rat) (tol delt
   split_ifs
   · exact Or.inl hz
   · exact trn_cg_interior_inside sqrt H g tol delta _ _ hz
+
+/-! ## L-BFGS: the two-loop recursion is multiplication by a symmetric positive definite matrix -/
+
+section lbfgs
+open Matrix
+
+theorem histDim_reverse (n : Nat) (hist : List (Vec Rat × Vec Rat)) (h : HistDim n hist) : HistDim n hist.reverse :=
+  fun sy hsy => h sy (List.mem_reverse.mp hsy)
+
+/-- **lbfgs_two_loop_is_matrix.**  For every history length, every `bdiag > 0` and every history of pairs `(s, y)` of
+dimension `n` with `yᵀs > 0`: the two loops of `LBFGS::multBInv` compute `M·x`, where `M` is the matrix obtained from
+`(1/bdiag)·I` by one BFGS inverse update per stored pair, oldest first — the implicit inverse Hessian approximation —
+and `M` is symmetric positive definite. -/
+theorem lbfgs_two_loop_is_matrix (n : Nat) (bdiag : Rat) (hb : 0 < bdiag) (hist : List (Vec Rat × Vec Rat))
+    (hd : HistDim n hist) (hpos : ∀ sy ∈ hist, 0 < Vec.dot sy.2 sy.1) (x : Vec Rat) (hx : x.length = n) :
+    vecFn n (LSOpt.multBInv bdiag hist x) = lbfgsM bdiag (histFn n hist.reverse) *ᵥ vecFn n x ∧
+    SymPD (lbfgsM bdiag (histFn n hist.reverse)) ∧ (LSOpt.multBInv bdiag hist x).length = n := by
+  have hd' := histDim_reverse n hist hd
+  have hpos' : ∀ sy ∈ hist.reverse, 0 < Vec.dot sy.2 sy.1 := fun sy h => hpos sy (List.mem_reverse.mp h)
+  rw [multBInv_eq_rec]
+  refine ⟨lbfgsRec_eq_mulVec n bdiag hb _ x hd' hpos' hx, ?_, lbfgsRec_length n bdiag _ x hd' hx⟩
+  apply lbfgsM_symPD bdiag hb
+  intro p hp
+  obtain ⟨q, hq, rfl⟩ := List.mem_map.mp hp
+  rw [← dot_eq n _ _ (hd' q hq).2 (hd' q hq).1]; exact hpos' q hq
+
+/-- **lbfgs_direction_descent.**  The unconstrained L-BFGS direction `d = -M·g` is a non-ascent direction, and a strict
+descent direction when `g ≠ 0`, for every history length. -/
+theorem lbfgs_direction_descent (n : Nat) (bdiag : Rat) (hb : 0 < bdiag) (hist : List (Vec Rat × Vec Rat))
+    (hd : HistDim n hist) (hpos : ∀ sy ∈ hist, 0 < Vec.dot sy.2 sy.1) (g : Vec Rat) (hg : g.length = n) :
+    Vec.dot g (LSOpt.multBInv bdiag hist (Vec.neg g)) ≤ 0 ∧
+    (vecFn n g ≠ 0 → Vec.dot g (LSOpt.multBInv bdiag hist (Vec.neg g)) < 0) := by
+  have hng : (Vec.neg g).length = n := by simp [Vec.neg, hg]
+  obtain ⟨hm, hpd, hl⟩ := lbfgs_two_loop_is_matrix n bdiag hb hist hd hpos (Vec.neg g) hng
+  rw [dot_eq n _ _ hg hl, hm, neg_vecFn n g hg, mulVec_neg, dotProduct_neg]
+  constructor
+  · by_cases hz : vecFn n g = 0
+    · rw [hz]; simp
+    · have := hpd.2 _ hz; linarith
+  · intro hz; have := hpd.2 _ hz; linarith
+
+/-- the same for the quantity the box-constrained direction needs: `p0ᵀ·B⁻¹p0 > 0` for a non-zero projected
+gradient `p0` — the hypothesis `hs` of `box_direction_descent` / `box_direction_nonzero` when no coordinate is blocked -/
+theorem lbfgs_multBInv_pos (n : Nat) (bdiag : Rat) (hb : 0 < bdiag) (hist : List (Vec Rat × Vec Rat))
+    (hd : HistDim n hist) (hpos : ∀ sy ∈ hist, 0 < Vec.dot sy.2 sy.1) (p : Vec Rat) (hp : p.length = n)
+    (hne : vecFn n p ≠ 0) : 0 < Vec.dot p (LSOpt.multBInv bdiag hist p) := by
+  obtain ⟨hm, hpd, hl⟩ := lbfgs_two_loop_is_matrix n bdiag hb hist hd hpos p hp
+  rw [dot_eq n _ _ hp hl, hm]
+  exact hpd.2 _ hne
+
+/-- what `LBFGS::updateHist` keeps true of `(bdiag, history)` -/
+def HistOK (n : Nat) (bdiag : Rat) (hist : List (Vec Rat × Vec Rat)) : Prop :=
+  0 < bdiag ∧ HistDim n hist ∧ ∀ sy ∈ hist, 0 < Vec.dot sy.2 sy.1
+
+theorem lbfgsUpdateHist_ok (n numHist : Nat) (bdiag : Rat) (hist : List (Vec Rat × Vec Rat)) (y s : Vec Rat)
+    (h : HistOK n bdiag hist) (hy : y.length = n) (hs : s.length = n) :
+    HistOK n (LSOpt.lbfgsUpdateHist numHist bdiag hist y s).1 (LSOpt.lbfgsUpdateHist numHist bdiag hist y s).2 := by
+  unfold LSOpt.lbfgsUpdateHist
+  dsimp only
+  split_ifs with hys hfull
+  all_goals first
+    | exact h
+    | (have hys' : 0 < Vec.dot y s := by
+         have : (0 : Rat) < (Scalar.ofRat (1/10000000000) : Rat) := by show (0 : Rat) < 1/10000000000; norm_num
+         exact lt_trans this hys
+       have hyy : 0 < Vec.dot y y := by
+         rcases lt_or_eq_of_le (dot_self_nonneg y) with h1 | h1
+         · exact h1
+         · have := dot_self_zero y s h1.symm; linarith
+       refine ⟨div_pos hyy hys', ?_, ?_⟩
+       · intro sy hsy
+         rcases List.mem_append.mp hsy with h1 | h1
+         · first | exact h.2.1 sy (List.mem_of_mem_drop h1) | exact h.2.1 sy h1
+         · simp only [List.mem_singleton] at h1; subst h1; exact ⟨hs, hy⟩
+       · intro sy hsy
+         rcases List.mem_append.mp hsy with h1 | h1
+         · first | exact h.2.2 sy (List.mem_of_mem_drop h1) | exact h.2.2 sy h1
+         · simp only [List.mem_singleton] at h1; subst h1; exact hys')
+
+theorem csd_lbfgs (s : LSOpt Rat) (nh : Nat) (bdiag : Rat) (hist : List (Vec Rat × Vec Rat)) (hm : s.model = .lbfgs nh bdiag hist) :
+    LSOpt.computeSearchDirection s =
+      { s with model := .lbfgs nh (LSOpt.lbfgsUpdateHist nh bdiag hist (Vec.sub s.derivative s.lastDerivative) (Vec.sub s.best.point s.lastPoint)).1
+                                  (LSOpt.lbfgsUpdateHist nh bdiag hist (Vec.sub s.derivative s.lastDerivative) (Vec.sub s.best.point s.lastPoint)).2,
+               dir := LSOpt.multBInv (LSOpt.lbfgsUpdateHist nh bdiag hist (Vec.sub s.derivative s.lastDerivative) (Vec.sub s.best.point s.lastPoint)).1
+                        (LSOpt.lbfgsUpdateHist nh bdiag hist (Vec.sub s.derivative s.lastDerivative) (Vec.sub s.best.point s.lastPoint)).2
+                        (Vec.neg s.derivative) } := by
+  unfold LSOpt.computeSearchDirection
+  simp only [hm]
+
+def LBFGSInv (o : Objective Rat) (n : Nat) (s : LSOpt Rat) : Prop :=
+  (∃ nh bdiag hist, s.model = .lbfgs nh bdiag hist ∧ HistOK n bdiag hist) ∧ s.best.point.length = n ∧ s.derivative.length = n ∧
+    s.dir.length = n ∧ Vec.dot s.derivative s.dir ≤ 0 ∧ 0 ≤ s.initialStep ∧ s.best.value = o.f s.best.point ∧
+    s.derivative = o.grad s.best.point
+
+theorem lbfgs_step_inv (ls : LineSearch Rat) (hc : LSContract ls) (o : Objective Rat) (ho : GradDim o) (n : Nat)
+    (s : LSOpt Rat) (h : LBFGSInv o n s) :
+    LBFGSInv o n (LSOpt.step ls o s) ∧ (LSOpt.step ls o s).best.value ≤ s.best.value := by
+  obtain ⟨⟨nh, bdiag, hist, hm, hok⟩, hp, hg, hdir, hdesc, hisl, hv, hgr⟩ := h
+  have hdl : s.dir.length = s.best.point.length := by rw [hdir, hp]
+  have ct := hc o s.best.point s.best.value s.dir s.derivative s.initialStep hdl hv hgr
+  set a := LSOpt.afterLineSearch ls o s with ha
+  have hma : a.model = .lbfgs nh bdiag hist := hm
+  have hap : a.best.point.length = n := by show (ls o _ _ _ _ _).point.length = n; rw [ct.2.2.1, hp]
+  have hag : a.derivative.length = n := by
+    show (ls o _ _ _ _ _).gradient.length = n
+    rw [ct.2.1, ho, ct.2.2.1, hp]
+  have hy : (Vec.sub a.derivative a.lastDerivative).length = n := sub_length _ _ n hag hg
+  have hs : (Vec.sub a.best.point a.lastPoint).length = n := sub_length _ _ n hap hp
+  have hok' := lbfgsUpdateHist_ok n nh bdiag hist _ _ hok hy hs
+  have hdd := lbfgs_direction_descent n _ hok'.1 _ hok'.2.1 hok'.2.2 a.derivative hag
+  have hml := (lbfgs_two_loop_is_matrix n _ hok'.1 _ hok'.2.1 hok'.2.2 (Vec.neg a.derivative) (by simp [Vec.neg, hag])).2.2
+  show LBFGSInv o n (LSOpt.computeSearchDirection a) ∧ (LSOpt.computeSearchDirection a).best.value ≤ s.best.value
+  rw [csd_lbfgs a nh bdiag hist hma]
+  exact ⟨⟨⟨_, _, _, rfl, hok'⟩, hap, hag, hml, hdd.1, by show (0 : Rat) ≤ Scalar.one; simp [Scalar.one, Scalar.ofRat], ct.1, ct.2.1⟩,
+    ct.2.2.2 hdesc hisl⟩
+
+/-- **linesearch_methods_monotone_lbfgs_modelled.**  Unconstrained L-BFGS (any history size, including 0 and 1) with
+any of the three modelled line searches, every objective whose gradient has the dimension of its argument, every
+starting point, every number of steps: value = f(point), every direction is a non-ascent direction (because the
+implicit matrix stays symmetric positive definite: `updateHist` only stores pairs with `yᵀs > 1e-10`), and the
+reported values never increase. -/
+theorem linesearch_methods_monotone_lbfgs_modelled (sqrt : Rat → Rat) (minI maxI : Rat) (type : Nat)
+    (o : Objective Rat) (ho : GradDim o) (x0 : Vec Rat) (nh : Nat) (b0 : Rat) (h0 : List (Vec Rat × Vec Rat)) (k : Nat) :
+    let run := iterN (LSOpt.step (lineSearchOf sqrt minI maxI type) o) (LSOpt.init o (.lbfgs nh b0 h0) x0)
+    (run k).best.value = o.f (run k).best.point ∧ Vec.dot (run k).derivative (run k).dir ≤ 0 ∧
+      (run (k + 1)).best.value ≤ (run k).best.value := by
+  intro run
+  have inv : ∀ k, LBFGSInv o x0.length (run k) := by
+    intro k
+    induction k with
+    | zero =>
+      refine ⟨⟨nh, Scalar.one, [], rfl, by show (0 : Rat) < 1; norm_num, fun _ h => by simp at h, fun _ h => by simp at h⟩,
+        rfl, ho x0, (by show (Vec.neg (o.grad x0)).length = x0.length; simp [Vec.neg, ho x0]),
+        direction_descent_neg_gradient _, init_step_nonneg o _ x0, rfl, rfl⟩
+    | succ k ih => exact (lbfgs_step_inv _ (lineSearchOf_contract sqrt minI maxI type) o ho _ _ ih).1
+  exact ⟨(inv k).2.2.2.2.2.2.1, (inv k).2.2.2.2.1, (lbfgs_step_inv _ (lineSearchOf_contract sqrt minI maxI type) o ho _ _ (inv k)).2⟩
+
+/-- non-vacuity -/
+example (k : Nat) :
+    let o : Objective Rat := ⟨fun x => (x.map fun a => a * a).sum, fun x => x.map (2 * ·), fun _ => true, false, [], []⟩
+    let run := iterN (LSOpt.step (lineSearchOf id 0 1 0) o) (LSOpt.init o (.lbfgs 3 1 []) [3, -1])
+    (run (k + 1)).best.value ≤ (run k).best.value :=
+  (linesearch_methods_monotone_lbfgs_modelled id 0 1 0 _ (fun x => by simp) [3, -1] 3 1 [] k).2.2
+end lbfgs
 
 end SharkVerif.C10
